@@ -301,7 +301,7 @@ def gen_cases(tier, seed):
     rng = random.Random(seed + 2)
     thorough = tier == "thorough"
     cases = []
-    N = 520 if not thorough else 9000
+    N = 520 if not thorough else 6000
     for i in range(N):
         ndom = rng.choice([1, 1, 1, 2, 2, 3])
         nmod = rng.choice([1, 1, 1, 2, 2, 3])
@@ -321,7 +321,7 @@ def gen_cases(tier, seed):
                                  driven=pg.combs))
     # malformed designs: one defect each, compared on the exception class
     kinds = ["badpat_len", "badpat_char", "next_outside", "undef_next", "undef_pre", "dup_state", "bad_init", "undef_init"]
-    for i in range(64 if not thorough else 600):
+    for i in range(64 if not thorough else 400):
         kind = kinds[i % len(kinds)]
         pg = PGen(rng, rng.randrange(1, 3), rng.randrange(1, 3), rng.randrange(1, 3), 1, 1, plain=True)
         prog = pg.module(0, True)
